@@ -68,8 +68,13 @@ def _c09(payload):
     m0, t0 = run_cfg_tables(cfg)
     viol = []
     n_steps_total = int(np.count_nonzero(t0["flux"][:, FL["time_step_counter"]])) + 1
-    for ks in ks_list:
-        m = sim.build_model(cfg)
+    for j, ks in enumerate(ks_list):
+        # every second partition is run with ACTIVITY BETWEEN THE CALLS: while the model is paused, the user builds, initialises and (every
+        # other time) runs to the end ANOTHER model from the very same input objects over a window shifted by 1-3 years, and reads the
+        # paused model's tables.  The paused model must not notice (it works on its own copies of the inputs).
+        busy = bool(payload.get("between_all")) or j % 2 == 1
+        objs = sim.build_objects(cfg)
+        m = sim.AquaCropModel(**objs)
         m._initialize()
         calls = 0
         for k in ks:
@@ -77,6 +82,9 @@ def _c09(payload):
                 break
             r = m.run_model(num_steps=int(k), initialize_model=False)
             calls += 1
+            if busy and calls <= 8:
+                _other_model(objs, cfg, calls)
+                m.get_water_flux(); m.get_crop_growth(); m.get_water_storage()
             fin = bool(m._clock_struct.model_is_finished)
             info = m.get_additional_information()
             if info["has_model_finished"] != fin:
@@ -88,7 +96,7 @@ def _c09(payload):
             m.run_model(till_termination=True, initialize_model=False)
         t = tables_of(m)
         for d in diff_tables(t0, t, "stepwise vs uninterrupted"):
-            viol.append(V("C09:tables", d + " for partition %r" % (ks[:12],), partition=ks))
+            viol.append(V("C09:tables" + (":between_calls" if busy else ""), d + " for partition %r%s" % (ks[:12], " with another model built from the same input objects between the calls" if busy else ""), partition=ks, between=busy))
         if m.get_simulation_results() is False:
             viol.append(V("C09:final_status", "finished model still reports no summary", partition=ks))
     # overshoot: one call with far too many steps
@@ -102,6 +110,21 @@ def _c09(payload):
     for v in viol:
         v["cfg"] = cfg
     return {"status": "ok", "violations": viol, "steps": n_steps_total, "partitions": len(ks_list)}
+
+
+def _other_model(objs, cfg, calls):
+    """another simulation from the same user objects, window shifted by 1-3 years (documented rejections are fine)"""
+    try:
+        yrs = 1 + calls % 3
+        st = pd.Timestamp(cfg["start"]) + pd.DateOffset(years=yrs); en = pd.Timestamp(cfg["end"]) + pd.DateOffset(years=yrs)
+        o = dict(objs, sim_start_time=st.strftime("%Y/%m/%d"), sim_end_time=en.strftime("%Y/%m/%d"))
+        other = sim.AquaCropModel(**o)
+        if calls % 2:
+            other._initialize()
+        else:
+            other.run_model(till_termination=True)
+    except Exception:
+        pass
 
 
 def worker_C09(payload):
